@@ -10,17 +10,31 @@ import (
 	"golang.org/x/tools/go/ssa"
 )
 
+// bndRun is a finished engine run, kept so that a second rule of the same property can
+// report another kind of obligation from it without re-running the inference.
+type bndRun struct {
+	e   *bndEngine
+	res *bndResult
+}
+
 // bndReport runs a bounds engine and turns its result into obligations of a rule.
 // floor is the hand-confirmed minimum number of obligations (a fragment that silently
 // shrinks must not pass vacuously).
 func bndReport(r *Run, rule string, e *bndEngine, floor int) *bndResult {
 	res := e.run()
+	if r.bnd == nil {
+		r.bnd = map[string]*bndRun{}
+	}
+	r.bnd[e.name] = &bndRun{e, res}
 	for _, fn := range e.fns {
 		r.Analysed(r.W.FnName(fn))
 	}
 	seen := map[string]int{}
 	nOb := 0
 	for i, o := range res.obs {
+		if o.kind == "no-wrap" {
+			continue // reported by the no-integer-wrap rule of the same property
+		}
 		construct := o.what
 		if o.ctx.envS != "" {
 			construct += " [" + o.ctx.envS + "]"
